@@ -76,11 +76,9 @@ SP == 32  LF == 10  NEL == 133  BSL == 92
 Brk == {10, 133, 8232, 8233}
 LineStart(a, j) == LET ks == {k \in 1 .. j - 1 : a[k] \in Brk}
                    IN  IF ks = {} THEN 1 ELSE (CHOOSE k \in ks : \A m \in ks : m <= k) + 1
-\* a fold point inside a more-indented line: a single space, in a line that begins with a space, in front of a character
+\* a fold point inside a more-indented line: a space, in a line that begins with a space, in front of a character
 FoldPointInMoreIndentedLine(a) ==
-  \E j \in DOMAIN a : /\ a[j] = SP /\ a[LineStart(a, j)] = SP
-                       /\ j < Len(a) /\ a[j + 1] \notin Brk \cup {SP}
-                       /\ (j = LineStart(a, j) \/ a[j - 1] # SP)
+  \E j \in DOMAIN a : a[j] = SP /\ a[LineStart(a, j)] = SP /\ j < Len(a) /\ a[j + 1] \notin Brk \cup {SP}
 Without(x, set) == SelectSeq(x, LAMBDA c : c \notin set)
 RECURSIVE RefoldMatch(_, _, _)
 RefoldMatch(a, b, n) ==                          \* b = a with n>0 insertions of <<backslash, space>> in front of a space
